@@ -3,11 +3,27 @@
        gen_sql_grammar.py | /verif/build/explaindump | /verif/build/tree_driver
 
 usage: gen_sql_grammar.py <seed> <count> [--kinds select,setop,insert,create,alter,utility]
-                          [--hex] [--start <index>]
+                          [--hex] [--start <index>] [--gaps]
 
-One statement per line (never contains a line break).  With --hex each line is the lowercase hex
-of the statement (the input format of explaindump); without it the plain text.
-Statement i depends only on (seed, i) through splitmix64, so `--start i` with count 1 replays it.
+One statement per line of the output.  With --hex each line is the lowercase hex of the statement
+(the input format of explaindump); without it the plain text, which never contains a line feed.
+Statement i depends only on (seed, i) (and on the flags) through splitmix64, so `--start i` with
+count 1 replays it.
+
+LINE FEEDS inside statements exist only in --hex mode: heredocs have no escapes, so a heredoc whose
+body spans several lines (`;` at the end of a line, multi-byte text on the last line, CR LF line ends)
+cannot be spelled on one line of text.  In --hex mode the line holds the hex of the real bytes
+including 0x0A; in text mode the same production deterministically takes the next one-line heredoc of
+its list instead, so text statement i and hex statement i differ only in that literal.
+
+--gaps: about 1 statement in 6 is replaced by a statement of the same kind that additionally uses a
+construct of the class "valid ClickHouse that the CURRENT parser of /repo rejects or mis-parses"
+(PARSER_GAPS below, keywords as implicit aliases without AS - especially as the last token -,
+FROM-first SELECT with LIMIT BY / OFFSET / PREWHERE / UNION, REFRESH EVERY / AFTER in any letter case,
+TTL ... GROUP BY ... SET, window frames, statement-start keywords that the parser takes for the
+beginning of a NEW statement: see the section "--gaps").  Such statements are NOT filtered here; a
+consumer keeps one only if the parser accepts it on its own.  Without the flag nothing of this is
+generated and the output does not depend on the section at all.
 
 Kinds (statement i has kind kinds[i % len(kinds)]):
   select   one SELECT with a random subset of all clauses (WITH [RECURSIVE], DISTINCT ON, TOP, FROM with every
@@ -44,8 +60,11 @@ this grammar: every statement printer, the literal formatters (negative / nested
 float literals, :: casts of them), SAMPLE ratio spellings, special functions (kql, DATE_ADD / DATE_DIFF
 families, POSITION(x IN y), quantified comparisons, FILTER / IGNORE NULLS / OVER), column matchers
 with transformers, JSON paths, MySQL-style types, Enum / Tuple / DateTime64 spellings with odd
-characters, string literals of every lexer form (escapes, doubled quotes, heredocs, x'..' / b'..',
-curly quotes) and comments.  A small share of the string literals contains a RAW TAB or CR (never a
+characters, string literals of every lexer form (escapes, doubled quotes, heredocs - also with `;`, a lone `$`,
+multi-byte text in the body -, x'..' / b'..', curly quotes), quoted identifiers with escaped quotes
+followed by `;`, nested block comments with look-alikes of the closing mark (`tmp/*/2024`), and
+AggregateFunction / SimpleAggregateFunction types whose function takes array / tuple / string
+parameters (in CAST ... AS, under `::` and as column types).  A small share of the string literals contains a RAW TAB or CR (never a
 line feed); every other control character is spelled as an escape.
 
 KNOWN_OPEN: constructs that are valid ClickHouse and accepted by the parser but make a check fail on
@@ -57,7 +76,7 @@ import sys
 
 # construct name -> one-line reason (see DESIGN.md open findings); empty = everything enabled
 KNOWN_OPEN = {
-    # (all nine constructs reported on 2026-10-01 were genuine defects and are fixed in /repo: see known_findings.json)
+    # (the ten constructs reported on 2026-10-01 were genuine defects and are fixed in /repo: see known_findings.json)
 }
 
 
@@ -69,8 +88,8 @@ def unless(name, *items):
     """the items, unless the construct `name` is switched off in KNOWN_OPEN"""
     return [] if ko(name) else list(items)
 
-# Valid ClickHouse that the parser of /repo REJECTED when this grammar was extended (not generated: a rejected statement
-# teaches nothing; listed so that a later parser fix can be followed by a production)
+# Valid ClickHouse that the parser of /repo REJECTED when this grammar was extended (not generated by the ordinary
+# productions: a rejected statement teaches nothing; generated under --gaps, see gap_* below)
 PARSER_GAPS = [
     "EXPLAIN CURRENT TRANSACTION", "SYSTEM SYNC REPLICA db.t STRICT", "SYSTEM SYNC DATABASE REPLICA db", "SYSTEM REFRESH VIEW v",
     "SYSTEM SYNC TRANSACTION LOG", "SHOW SETTING max_threads", "SHOW CURRENT ROLES", "SHOW ROW POLICIES", "SHOW TABLES IN db",
@@ -1033,6 +1052,9 @@ def lambda_call(r, d):
     return "mapApply((k, v) -> (k, v * 2), m)"
 
 
+NEG_BRACKET = re.compile(r"-\s*[\[(]")
+
+
 def in_expr(r, d, subq):
     lhs = expr(r, d + 2, False) if r.p(2, 3) else "(" + col(r) + ", " + col(r) + ")"
     op = r.pick([" IN ", " NOT IN ", " GLOBAL IN ", " GLOBAL NOT IN ", " in ", " global not in "])
@@ -1077,6 +1099,8 @@ def in_expr(r, d, subq):
                      + ([] if ko("in-empty-list") else ["(())", "((()))"]))
     else:
         rhs = "(" + ", ".join(literal(r) for _ in range(1 + r.below(3))) + r.pick(["", ","]) + ")"
+    if ko("aliased-in-neg-array") and x in (0, 10, 14, 17, 18, 19) and NEG_BRACKET.search(rhs):
+        rhs = rhs[:-1].rstrip(", ") + ", x)"        # (a non-literal element: the list is a Function tuple with or without alias)
     return lhs + op + rhs
 
 
@@ -1718,8 +1742,10 @@ def gen_select(r):
                        "SELECT x IN ('a', 'b', NULL, 'd', 'e', 'f', 'g', 'h', 'i', 'j', 'k') AS with_null FROM t"])
     if r.p(1, 40):
         # FROM-first spelling
-        s = (with_clause(r, 2) + " " if r.p(1, 5) else "") + "FROM " + table_expr(r, 1) + " SELECT " + r.pick(["", "", "DISTINCT ", "DISTINCT ON (a, b) "]) \
-            + ", ".join(select_item(r, 2) for _ in range(1 + r.below(3)))
+        s = (with_clause(r, 2) + " " if r.p(1, 5) else "") + "FROM " + table_expr(r, 1) + " SELECT "
+        q = r.pick(["", "", "DISTINCT ", "DISTINCT ON (a, b) "])
+        lst = ", ".join(select_item(r, 2) for _ in range(1 + r.below(3)))
+        s += ("DISTINCT " if q.startswith("DISTINCT ON") and lst[0] in "[(" else q) + lst     # (see select_core: DISTINCT ON (a) [1]::T)
         if r.p(1, 2):
             s += " WHERE " + expr(r, 2, False)
         if r.p(1, 2):
@@ -1954,7 +1980,10 @@ def columns_def(r, attach=False):
             items.append(index_def(r))
     if r.p(1, 8) and not attach:
         for _ in range(r.pick([1, 1, 2])):
-            items.append("CONSTRAINT " + r.pick(["c1", "chk", "`my c`"]) + r.pick([" CHECK ", " ASSUME ", " check "]) + expr(r, 3, False))
+            e = expr(r, 3, False)
+            if e[0] in "[(" and "::" in e:
+                e = "(" + e + ")"         # (ASSUME [1]::T reads like a subscript to the re-layout harness, which then does not freeze the operand)
+            items.append("CONSTRAINT " + r.pick(["c1", "chk", "`my c`"]) + r.pick([" CHECK ", " ASSUME ", " check "]) + e)
     if r.p(1, 8) and not attach:
         for _ in range(r.pick([1, 1, 2])):
             items.append(projection_def(r))
@@ -2864,12 +2893,523 @@ def gen_utility(r, nested=False):
 
 
 # ------------------------------------------------------------------------------------------
+# --gaps: valid ClickHouse that the CURRENT parser of /repo rejects or mis-parses
+#
+# With --gaps about 1 statement in 6 is REPLACED by a statement of the same kind that is built from the ordinary productions
+# and additionally uses one construct of that class (the decision and the statement depend only on (seed, i), through a
+# generator of their own: the ordinary statements of a --gaps run are the statements of the run without the flag).
+# A consumer keeps a --gaps statement only if the parser accepts it on its own, so a rejected one costs nothing; as soon
+# as a parser change starts accepting a form, the form is exercised by every consumer.
+
+# words that are keyword tokens of the lexer (or words the parser compares) and that ClickHouse takes as an alias WITHOUT `AS`
+# (none of ClickHouse's restricted alias words: ALL ANY ARRAY FINAL FORMAT FROM ... UNION USING WHERE WINDOW WITH)
+GAP_ALIASES = ["top", "first", "last", "key", "comment", "user", "index", "view", "table", "database", "values", "temporary", "partition",
+               "ttl", "cluster", "totals", "rollup", "cube", "columns", "engine", "function", "nulls", "ties", "materialized", "populate",
+               "alias", "primary", "modify", "add", "column", "constraint", "default", "freeze", "both", "leading", "trailing", "range",
+               "rows", "groups", "current", "optimize", "explain", "date", "timestamp", "type", "name", "role", "policy", "set", "show",
+               "system", "use", "query", "row", "id", "uuid", "session", "every", "refresh", "next", "to", "if", "distinct", "exists",
+               "extract", "substring", "trim", "cast", "total", "TOP", "First", "LAST", "Key", "COMMENT", "User", "sync", "settings",
+               # words that start a statement: the parser begins a NEW statement there (`SELECT a show` parses as two statements)
+               "truncate", "rename", "describe", "kill", "grant", "revoke", "watch", "check", "attach", "detach", "drop", "alter", "create",
+               "insert", "backup", "restore", "undrop", "begin", "commit", "rollback", "show", "use", "system", "exists"]
+
+
+def kwcase(r, words):
+    """the words in a random letter case (per word: upper, lower, capitalised, as given)"""
+    return " ".join(r.pick([w.upper(), w.lower(), w.capitalize(), w]) for w in words.split())
+
+
+def gap_alias_item(r):
+    """a select-list element with an implicit keyword alias"""
+    x = r.below(14)
+    if x == 0:
+        e = "count()"
+    elif x == 1:
+        e = r.pick(AGGS) + "(" + col(r) + ")"
+    elif x == 2:
+        e = r.pick(FUNCS1) + "(" + expr(r, 3, False) + ")"
+    elif x == 3:
+        e = "(" + expr(r, 2, False) + ")"
+    elif x == 4:
+        e = col(r)
+    elif x == 5:
+        e = literal(r)
+    elif x == 6:
+        e = window_func(r, 3)
+    elif x == 7:
+        e = "CASE WHEN " + col(r) + " THEN " + literal(r) + " ELSE " + col(r) + " END"
+    elif x == 8:
+        e = col(r) + "::" + r.pick(SIMPLE_TYPES)
+    elif x == 9:
+        e = r.pick(["max(price)", "arr[1]", "tup.1", "a + b", "a * 2", "NOT a", "-x", "a IS NULL", "a BETWEEN 1 AND 2", "x IN (1, 2)", "(SELECT 1)", "[1, 2]", "(1, 2)",
+                    "a ? b : c", "x -> x + 1", "{p:UInt8}", "NULL", "INTERVAL 1 DAY", "CAST(x AS UInt8)", "now()", "a LIKE 'x%'", "m['k']", "a || b"])
+    elif x == 10:
+        e = "count(" + r.pick(["*", "DISTINCT a", "a"]) + ")" + r.pick(["", " FILTER (WHERE a > 0)"])
+    else:
+        e = expr(r, 3, False)
+    return e + " " + r.pick(GAP_ALIASES)
+
+
+def gap_select_alias(r):
+    """a keyword as implicit alias, especially as the LAST token of the statement"""
+    ordinary = lambda: expr(r, 3, False) + r.pick(["", "", " AS " + alias(r), " " + r.pick(["k", "v", "res"])])
+    x = r.below(10)
+    if x == 0:
+        return "SELECT count() total, max(price) " + r.pick(GAP_ALIASES)
+    if x < 4:
+        # the keyword is the last token of the statement
+        items = [ordinary() for _ in range(r.below(3))] + [gap_alias_item(r)]
+        return "SELECT " + r.pick(["", "", "DISTINCT ", "ALL "]) + ", ".join(items)
+    if x < 6:
+        items = [r.pick([ordinary, lambda: gap_alias_item(r)])() for _ in range(1 + r.below(3))]
+        if r.p(1, 2):
+            items[r.below(len(items))] = gap_alias_item(r)
+        else:
+            items.append(gap_alias_item(r))
+        s = "SELECT " + ", ".join(items) + " " + from_clause(r, 2)
+        if r.p(1, 2):
+            s += " WHERE " + expr(r, 3, False)
+        if r.p(1, 3):
+            s += " ORDER BY " + order_elem(r, 2)
+        if r.p(1, 3):
+            s += " " + limit_clause(r)
+        return s
+    if x == 6:
+        # inside a subquery / CTE / scalar subquery: the keyword stands before `)`
+        inner = "SELECT " + gap_alias_item(r) + r.pick(["", " FROM " + r.pick(TABLES)])
+        return r.pick(["SELECT * FROM (" + inner + ")", "WITH q AS (" + inner + ") SELECT * FROM q", "SELECT (" + inner + ") AS s",
+                       "SELECT a FROM t WHERE a IN (" + inner + ")", "WITH (" + inner + ") AS s SELECT s", "SELECT * FROM view(" + inner + ")",
+                       "SELECT arrayMap(x -> (" + inner + "), arr)", "EXPLAIN AST " + inner, "CREATE VIEW v AS " + inner, "INSERT INTO t " + inner])
+    if x == 7:
+        # a keyword as TABLE alias without AS, as the last token or before a clause
+        a = r.pick(GAP_ALIASES)
+        return "SELECT " + r.pick(["*", a + ".a", "a"]) + " FROM " + r.pick(TABLES + ["(SELECT 1 AS a)", "numbers(3)"]) + " " + a \
+            + r.pick(["", "", " WHERE a = 1", " JOIN t2 " + r.pick(GAP_ALIASES) + " ON 1", " ORDER BY a", " FINAL", " ARRAY JOIN arr " + r.pick(GAP_ALIASES)])
+    if x == 8:
+        # every element of a list with a keyword alias; before FROM / UNION / tails
+        s = "SELECT " + ", ".join(gap_alias_item(r) for _ in range(2 + r.below(3)))
+        return s + r.pick(["", " FROM t", " UNION ALL SELECT 1 " + r.pick(GAP_ALIASES), " FORMAT Null", " SETTINGS max_threads = 1", " INTO OUTFILE 'f'",
+                           " FROM t GROUP BY a WITH TOTALS", ";", " LIMIT 1", " FROM t WHERE a", " -- c", " /* c */"])
+    # WITH / ORDER BY / GROUP BY / LIMIT BY / ARRAY JOIN elements with a keyword alias
+    return r.pick(["WITH " + gap_alias_item(r) + " SELECT 1", "WITH 1 " + r.pick(GAP_ALIASES) + " SELECT " + gap_alias_item(r),
+                   "SELECT a FROM t ARRAY JOIN arr " + r.pick(GAP_ALIASES), "SELECT a FROM t ARRAY JOIN arr AS x, arrayEnumerate(arr) " + r.pick(GAP_ALIASES),
+                   "SELECT " + gap_alias_item(r) + ", " + col(r) + " AS x, " + col(r) + " first",
+                   "SELECT 1 AS x, " + col(r) + " " + r.pick(["first", "key", "comment", "user", "top"])])
+
+
+def gap_frame(r):
+    """a window frame (every unit, every kind of bound, offsets that are expressions, any letter case)"""
+    off = lambda: r.pick(["1", "2", "10", "0", "1.5", "{p:UInt8}", "(1 + 1)", "x", "f(2)", "INTERVAL 1 DAY", "INTERVAL 1 HOUR", "toIntervalDay(1)", "1e3", "0x10",
+                          "18446744073709551615", "-1", "'a'", "NULL", "1 + 1", "x * 2", "INTERVAL '1' SECOND"])
+    start = lambda: r.pick(["UNBOUNDED PRECEDING", "CURRENT ROW", off() + " PRECEDING", off() + " FOLLOWING", "UNBOUNDED PRECEDING", off() + " PRECEDING"])
+    end = lambda: r.pick(["UNBOUNDED FOLLOWING", "CURRENT ROW", off() + " PRECEDING", off() + " FOLLOWING", "UNBOUNDED FOLLOWING", off() + " FOLLOWING"])
+    unit = r.pick(["ROWS", "RANGE", "GROUPS"])
+    words = (unit + " BETWEEN \x00 AND \x01") if r.p(2, 3) else (unit + " \x00")
+    out = []
+    for w in words.split():
+        if w == "\x00":
+            out.append(" ".join(kwcase(r, p) if p.upper() in ("UNBOUNDED", "PRECEDING", "FOLLOWING", "CURRENT", "ROW") else p for p in start().split()))
+        elif w == "\x01":
+            out.append(" ".join(kwcase(r, p) if p.upper() in ("UNBOUNDED", "PRECEDING", "FOLLOWING", "CURRENT", "ROW") else p for p in end().split()))
+        else:
+            out.append(kwcase(r, w))
+    return " ".join(out)
+
+
+def gap_window_spec(r, base=""):
+    parts = [base] if base else []
+    if r.p(1, 2) and not base:
+        parts.append(kwcase(r, "PARTITION BY") + " " + ", ".join(r.pick([col(r), "toDate(ts)", "a % 2", "(a, b)"]) for _ in range(1 + r.below(2))))
+    if r.p(3, 4):
+        parts.append(kwcase(r, "ORDER BY") + " " + ", ".join(col(r) + r.pick(["", " DESC", " ASC NULLS FIRST", " desc nulls last", " COLLATE 'en'"]) for _ in range(1 + r.below(2))))
+    parts.append(gap_frame(r))
+    return "(" + " ".join(parts) + ")"
+
+
+def gap_select_window(r):
+    f = lambda: r.pick(["sum(x)", "row_number()", "lagInFrame(x, 1, 0)", "leadInFrame(x)", "lag(x)", "lead(x, 1, 0)", "first_value(y)", "last_value(y)", "nth_value(x, 2)",
+                        "count()", "avg(x + 1)", "any(x) IGNORE NULLS", "first_value(x) RESPECT NULLS", "sum(x) FILTER (WHERE a)", "quantile(0.5)(x)", "ntile(4)",
+                        "uniq(x, y)", "groupArray(2)(x)", "cume_dist()", "exponentialTimeDecayedSum(10)(v, ts)"])
+    x = r.below(6)
+    if x < 3:
+        items = [f() + " " + kwcase(r, "OVER") + " " + gap_window_spec(r) + r.pick(["", "", " AS w1", " " + r.pick(GAP_ALIASES)]) for _ in range(1 + r.below(2))]
+        return "SELECT " + ", ".join(items) + r.pick(["", " FROM t", " FROM t WHERE a", " FROM numbers(10) ORDER BY 1"])
+    if x == 3:
+        return "SELECT " + f() + " OVER w, " + f() + " OVER (w2) FROM t " + kwcase(r, "WINDOW") + " w AS " + gap_window_spec(r) + ", w2 AS " + gap_window_spec(r, "w" if r.p(1, 2) else "")
+    if x == 4:
+        return "SELECT " + f() + " OVER (w " + gap_frame(r) + ") FROM t WINDOW w AS (PARTITION BY a ORDER BY b)" + r.pick(["", " QUALIFY " + f() + " OVER w > 1", " ORDER BY a", " LIMIT 1"])
+    return "SELECT a FROM t QUALIFY " + f() + " OVER " + gap_window_spec(r) + " = 1" + r.pick(["", " ORDER BY " + f() + " OVER " + gap_window_spec(r)])
+
+
+def gap_from_first_core(r, d=2):
+    """FROM-first SELECT with the clauses the FROM-first branch of the parser does not take"""
+    s = "FROM " + r.pick([lambda: table_expr(r, d), lambda: from_clause(r, d).split(" ", 1)[1], lambda: r.pick(TABLES)])() \
+        + " SELECT " + r.pick(["", "", "DISTINCT ", "ALL "]) + ", ".join(select_item(r, d + 1) for _ in range(1 + r.below(3)))
+    opts = []
+    if r.p(1, 3):
+        opts.append("PREWHERE " + expr(r, 3, False))
+    if r.p(1, 3):
+        opts.append("WHERE " + expr(r, 3, False))
+    if r.p(1, 4):
+        opts.append("GROUP BY " + col(r) + r.pick(["", " WITH TOTALS", " WITH ROLLUP"]))
+        if r.p(1, 2):
+            opts.append("HAVING " + expr(r, 3, False))
+    if r.p(1, 8):
+        opts.append("WINDOW w AS (ORDER BY a)")
+    if r.p(1, 6):
+        opts.append("QUALIFY " + r.pick(["row_number() OVER () = 1", "a"]))
+    if r.p(1, 3):
+        opts.append("ORDER BY " + order_elem(r, d))
+    x = r.below(10)
+    n, m = r.pick(["1", "10", "{lim:UInt64}", "2"]), r.pick(["1", "5", "0"])
+    by = ", ".join(col(r) for _ in range(1 + r.below(2)))
+    if x == 0:
+        opts.append("LIMIT " + n + " BY " + by)
+    elif x == 1:
+        opts.append("LIMIT " + n + ", " + m + " BY " + by + r.pick(["", " LIMIT 3"]))
+    elif x == 2:
+        opts.append("LIMIT " + n + " OFFSET " + m + r.pick(["", " BY " + by]))
+    elif x == 3:
+        opts.append("OFFSET " + m + r.pick(["", " ROWS", " ROW", " ROWS FETCH NEXT " + n + " ROWS ONLY", " ROW FETCH FIRST " + n + " ROW WITH TIES"]))
+    elif x == 4:
+        opts.append("LIMIT " + n + ", " + m)
+    elif x == 5:
+        opts.append("LIMIT " + n + " WITH TIES")
+    elif x == 6:
+        opts.append(limit_clause(r))
+    if not opts:
+        opts.append(r.pick(["PREWHERE a", "OFFSET 1", "LIMIT 1 BY a", "LIMIT 1, 2 BY a, b"]))
+    return s + " " + " ".join(opts)
+
+
+def gap_select_from_first(r):
+    x = r.below(10)
+    s = gap_from_first_core(r)
+    if x < 4:
+        return (with_clause(r, 2) + " " if r.p(1, 5) else "") + s + r.pick(["", "", " SETTINGS max_threads = 1", " FORMAT " + r.pick(FORMATS), " INTO OUTFILE 'f.tsv'"])
+    if x < 7:
+        op = r.pick(["UNION ALL", "UNION DISTINCT", "UNION", "INTERSECT", "EXCEPT", "union all"])
+        other = r.pick([lambda: select_core(r, 2, simple=True), lambda: gap_from_first_core(r), lambda: "FROM t2 SELECT b", lambda: "(FROM t2 SELECT b)"])
+        return r.pick([s + " " + op + " " + other(), other() + " " + op + " " + s, "(" + s + ") " + op + " " + other(), s + " " + op + " " + other() + " " + op + " " + other()])
+    if x == 7:
+        return r.pick(["SELECT (" + s + ")", "SELECT * FROM (" + s + ")", "SELECT a IN (" + s + ") FROM t", "WITH q AS (" + s + ") SELECT * FROM q", "SELECT * FROM view(" + s + ")"])
+    if x == 8:
+        return r.pick(["EXPLAIN ", "EXPLAIN AST ", "EXPLAIN SYNTAX ", "EXPLAIN PLAN actions = 1 "]) + s
+    return s + r.pick([" FORMAT Null", " FORMAT JSON SETTINGS a = 1", ";", " SETTINGS a = 1 FORMAT TSV"])
+
+
+def gap_select_misc(r):
+    """the remaining SELECT-level entries of PARSER_GAPS and the traps noticed while the grammar was extended"""
+    t = r.pick(TABLES)
+    c = col(r)
+    return r.pick([
+        lambda: "SELECT COLUMNS('" + r.pick(["a", "^x", "id$"]) + "') EXCEPT('" + r.pick(["pattern", "^a", "x|y"]) + "')" + r.pick(["", " APPLY(sum)"]) + " FROM " + t,
+        lambda: "SELECT " + c + " FROM " + t + " LIMIT " + r.pick(["1", "2, 3"]) + " BY " + r.pick(["format(a)", "a, format(b, c)", "format", "a, format"]) + r.pick(["", " LIMIT 5", " SETTINGS a = 1", " FORMAT TSV"]),
+        lambda: "SELECT " + c + r.pick(["", " FROM " + t]) + " INTO OUTFILE " + string_lit(r) + r.pick([" COMPRESSION 'gzip'", " COMPRESSION 'zstd' LEVEL 3", " AND STDOUT", " APPEND", " TRUNCATE",
+                                                                                                   " AND STDOUT COMPRESSION 'gzip'", " COMPRESSION 'br' FORMAT CSV"]),
+        lambda: "SELECT " + r.pick(["now()", "ts", "d"]) + r.pick([" + ", " - "]) + "INTERVAL " + r.pick(["{p:UInt32}", "{n:Int64}", "{`a b`:UInt8}"]) + " " + r.pick(UNITS),
+        lambda: "SELECT " + c + " FROM " + t + " FETCH FIRST " + r.pick(["1", "10"]) + r.pick([" ROWS ONLY", " ROW ONLY", " ROWS WITH TIES"]),
+        lambda: "SELECT " + c + " FROM " + t + " ORDER BY " + c + " LIMIT " + r.pick(["10 OFFSET 5", "5, 10"]) + " WITH TIES",
+        lambda: "SELECT TOP " + r.pick(["3", "1"]) + " " + r.pick(["[1, 2]", "[a, b]", "(1, 2)", "(a)", "[1, 2][1]", "(a + b) * c"]) + r.pick(["", " FROM " + t]),
+        lambda: "SELECT DISTINCT ON (" + c + ") " + r.pick(["[1, 2]", "(1, 2)", "(a)", "[a][1]", "(a + b) * c"]) + r.pick(["", " FROM " + t]),
+        lambda: "WITH RECURSIVE " + r.pick(["[1, 2] AS x", "(1, 2) AS x", "(SELECT 1) AS x"]) + " SELECT x",
+        lambda: "SELECT " + r.pick(["a, format", "format", "format, a", "a, format, b", "t.format, format"]) + " FROM " + t,
+        lambda: "SELECT " + c + " FROM " + r.pick(["{db:Identifier}.t", "{db:Identifier}.{t:Identifier}", "db.{t:Identifier}"]) + r.pick(["", " AS x", " WHERE a"]),
+        lambda: "SELECT " + c + " FROM " + t + " SAMPLE " + r.pick(["1/10", "0.1", "1/10 OFFSET 1/2"]) + r.pick([" OFFSET 5", " LIMIT 1 OFFSET 5", " OFFSET 1 ROWS"]),
+        lambda: "SELECT " + c + " FROM " + t + " ARRAY JOIN arr, t2" + r.pick(["", " WHERE a"]),
+        lambda: "SELECT " + c + " FROM " + t + " JOIN t2 USING a, b" + r.pick([", t3", " JOIN t3 USING c"]),
+        lambda: "SELECT * FROM " + r.pick(["(t1 JOIN t2 ON t1.a = t2.a) JOIN t3 ON 1", "t1 JOIN (t2 JOIN t3 ON 1) ON 1", "(t1 CROSS JOIN t2)"]),
+        lambda: "SELECT " + r.pick(["$a$b, $a$b", "$x$y AS k, $x$y"]) + " FROM " + t,
+        lambda: "SELECT " + r.pick(["* REPLACE a + 1 AS a, b", "COLUMNS('a') REPLACE a + 1 AS a, b", "COLUMNS(a, b) REPLACE (a + 1 AS a), c", "* EXCEPT a, b"]) + " FROM " + t,
+        lambda: "SELECT " + c + ", FROM " + r.pick([t, "(" + t + ")", "numbers(3)", t + " AS x", "(t1 JOIN t2 ON 1)"]),
+        lambda: "SELECT " + r.pick(["exists(SELECT 1)", "exists((SELECT 1))", "NOT exists(SELECT 1)"]) + r.pick(["", " AS e", " FROM " + t]),
+        lambda: "SELECT " + c + " FROM " + t + " " + r.pick(["FETCH", "INTO", "OFFSET"]).lower() + " WHERE " + r.pick(["fetch", "into", "offset"]) + ".a = 1",
+        lambda: "SELECT " + r.pick(["x = any(y) OVER ()", "x > all(y) OVER w", "x = any(arr)", "x != all(arr)"]) + " FROM " + t + " WINDOW w AS ()",
+        lambda: "SELECT " + c + " FROM " + t + " ORDER BY " + c + " WITH FILL " + r.pick(["STALENESS 1", "FROM 1 TO 10 STEP INTERVAL 1 DAY STALENESS INTERVAL 2 DAY", "TO 10"]) + r.pick(["", " INTERPOLATE", " INTERPOLATE (a)"]),
+        lambda: "SELECT " + r.pick(["a NOT ILIKE 'x'", "a REGEXP 'x'", "a NOT REGEXP 'x'", "a IS NOT DISTINCT FROM b", "INTERVAL '1 DAY 2 HOUR'", "INTERVAL 1 DAY + INTERVAL '2' HOUR", "DATE '2020-01-01'",
+                                    "TIMESTAMP '2020-01-01 00:00:00'", "a BETWEEN SYMMETRIC 1 AND 2", "a IS TRUE", "a IS NOT FALSE", "a IS UNKNOWN", "x::Tuple(a UInt8).a",
+                                    "f(x)(y)(z)", "arr[1][2].1", "t.1.2", "-t.1", "a.b.c.d", "1 IS NULL IS NOT NULL", "x -> y -> x + y", "(x, y) -> (x -> x)(y)",
+                                    "lambda(tuple(x), x + 1)", "arrayMap((x) -> x, arr)", "count(*) FILTER (WHERE a) OVER ()", "any(x) RESPECT NULLS", "f(DISTINCT a, b)",
+                                    "sum(ALL a)", "quantile(0.5)(DISTINCT x)", "CAST(a, 'UInt8') AS b", "a AS b AS c", "(a AS b) + b", "* APPLY sum AS s", "1 AS `x`, `x`",
+                                    "[1, 2] AS arr ARRAY JOIN arr", "a GLOBAL IN t2", "a IN t2", "a IN db.t2", "a NOT IN (SELECT 1) AS b", "(1, 2) IN ((1, 2), (3, 4))",
+                                    "1 IN (1)", "1 IN 1", "1 IN [1, 2]", "NULL IN (NULL)", "CASE a WHEN 1 THEN 2 END", "CASE WHEN a THEN 1 END first", "if(a, b, c) user"])
+        + r.pick(["", " FROM " + t]),
+        lambda: "SELECT " + c + " FROM " + t + " GROUP BY " + r.pick(["ALL", "ALL WITH TOTALS", "a WITH ROLLUP WITH TOTALS", "GROUPING SETS ((a), (b, c), ())", "CUBE(a, b) WITH TOTALS",
+                                                                     "a, b WITH CUBE", "ROLLUP(a), b"]) + r.pick(["", " ORDER BY ALL", " ORDER BY ALL DESC NULLS LAST"]),
+        lambda: "SELECT " + c + " FROM " + t + " " + r.pick(["NATURAL JOIN t2", "AS x (c1, c2)", "FINAL AS x", "AS x FINAL SAMPLE 0.1", "LEFT ARRAY JOIN arr AS e, arr2 AS f WHERE e",
+                                                             "JOIN t2 ON t.a = t2.a AND t.b > t2.b JOIN t3 USING (c) SETTINGS join_algorithm = 'hash'", "SEMI JOIN t2 USING (a)"]),
+    ])()
+
+
+def gap_select(r):
+    x = r.below(12)
+    if x < 4:
+        return gap_select_alias(r)
+    if x < 7:
+        return gap_select_from_first(r)
+    if x < 9:
+        return gap_select_window(r)
+    return gap_select_misc(r)
+
+
+def gap_setop(r):
+    x = r.below(8)
+    m = lambda: select_core(r, 2, simple=True)
+    op = lambda: r.pick(["UNION ALL", "UNION DISTINCT", "UNION", "INTERSECT", "EXCEPT", "INTERSECT DISTINCT", "EXCEPT ALL"])
+    if x < 2:
+        # FROM-first members
+        return r.pick([lambda: gap_from_first_core(r) + " " + op() + " " + m(), lambda: m() + " " + op() + " " + gap_from_first_core(r),
+                       lambda: "FROM " + r.pick(TABLES) + " SELECT " + col(r) + " " + op() + " FROM " + r.pick(TABLES) + " SELECT " + col(r) + r.pick(["", " ORDER BY 1", " LIMIT 1", " FORMAT Null"]),
+                       lambda: "(" + gap_from_first_core(r) + ") " + op() + " (" + gap_from_first_core(r) + ")"])()
+    if x < 4:
+        # a keyword alias as the last token of a member
+        return "SELECT " + gap_alias_item(r) + " " + op() + " SELECT " + gap_alias_item(r) + r.pick(["", " " + op() + " " + m(), " ORDER BY 1", " FORMAT Null", " SETTINGS a = 1"])
+    if x == 4:
+        return "WITH " + literal(r) + " AS x SELECT x " + r.pick(["INTERSECT", "EXCEPT", "INTERSECT ALL"]) + " (" + m() + ")" + r.pick([" FORMAT Null", " FORMAT JSON SETTINGS a = 1", " INTO OUTFILE 'f'", " SETTINGS a = 1 FORMAT TSV"])
+    if x == 5:
+        return m() + " UNION ALL " + m() + " " + r.pick(["INTERSECT", "EXCEPT"]) + " (" + m() + ")" + r.pick([" SETTINGS a = 1", " FORMAT Null", " ORDER BY 1", " LIMIT 1"])
+    if x == 6:
+        return "SELECT " + gap_select_window(r)[7:] + " " + op() + " " + m()
+    return "(" + m() + " " + op() + " " + m() + ") " + op() + " " + m() + r.pick([" ORDER BY 1 LIMIT 1", " LIMIT 1 BY a", " OFFSET 1", " LIMIT 1 WITH TIES"])
+
+
+def gap_insert(r):
+    t = r.pick(["t", "db.t", "TABLE t", "`my table`"])
+    cols = "(" + ", ".join(r.pick(COLS) for _ in range(1 + r.below(3))) + ")"
+    row = lambda: "(" + ", ".join(literal(r) for _ in range(1 + r.below(3))) + ")"
+    return r.pick([
+        lambda: "INSERT INTO FUNCTION " + r.pick(["file('a_{_partition_id}.csv', 'CSV', 'a UInt8, b UInt8')", "s3('http://b/k_{_partition_id}', 'CSV')"]) + " PARTITION BY " + r.pick(["(a, b)", "a", "a % 10", "toYYYYMM(d)"])
+        + " " + cols + " " + r.pick(["VALUES " + row(), "SELECT " + col(r) + " FROM t"]),
+        lambda: "INSERT INTO " + t + r.pick(["", " " + cols]) + " VALUES " + " ".join(row() for _ in range(2 + r.below(3))),
+        lambda: "INSERT INTO " + t + r.pick(["", " " + cols]) + " VALUES " + row() + r.pick([" , ", ",", " "]) + row() + r.pick(["", ";", " ;"]),
+        lambda: "INSERT INTO " + t + r.pick(["", " " + cols]) + " " + gap_from_first_core(r),
+        lambda: "INSERT INTO " + t + r.pick(["", " " + cols]) + " FROM " + r.pick(TABLES) + " SELECT " + col(r),
+        lambda: "INSERT INTO " + t + r.pick(["", " " + cols]) + " SELECT " + gap_alias_item(r) + r.pick(["", " FROM t2"]),
+        lambda: "INSERT INTO " + t + r.pick(["", " " + cols]) + " " + r.pick(["SETTINGS async_insert = 1 ", "settings a = 1, b = 2 "]) + r.pick(["VALUES " + row(), "SELECT 1", "FORMAT JSONEachRow {\"a\": 1}"]),
+        lambda: "INSERT INTO " + t + " " + r.pick(["(* EXCEPT a)", "(COLUMNS('a') EXCEPT('x'))", "(*)", "(t.*)"]) + " VALUES " + row(),
+        lambda: "INSERT INTO " + t + " " + cols + " FROM INFILE " + string_lit(r) + r.pick([" COMPRESSION 'gzip' SETTINGS a = 1 FORMAT CSV", " SETTINGS a = 1", " FORMAT CSV SETTINGS a = 1"]),
+        lambda: "INSERT INTO " + r.pick(["TEMPORARY TABLE t", "{db:Identifier}.t", "{t:Identifier}", "TABLE FUNCTION null('a UInt8')"]) + " VALUES " + row(),
+        lambda: "WITH 1 AS x INSERT INTO " + t + " " + r.pick(["VALUES " + row(), "FROM t2 SELECT x"]),
+        lambda: "INSERT INTO " + t + " " + r.pick(["WATCH v", "EXPLAIN SELECT 1", "(SELECT 1) UNION ALL (SELECT 2) FORMAT Null", "SELECT 1 FORMAT Null SETTINGS a = 1", "VALUES"]),
+    ])()
+
+
+def gap_refresh(r):
+    """REFRESH EVERY n unit [m unit ...] [OFFSET n unit ...] | AFTER n unit ... with every option, in any letter case"""
+    unit = lambda: r.pick(["SECOND", "MINUTE", "HOUR", "DAY", "WEEK", "MONTH", "YEAR", "SECONDS", "minutes", "Hours", "days", "weeks", "months", "years"])
+    span = lambda: " ".join(str(1 + r.below(59)) + " " + unit() for _ in range(r.pick([1, 1, 1, 2, 3])))
+    if r.p(2, 3):
+        s = kwcase(r, "REFRESH EVERY") + " " + span()
+        if r.p(2, 3):
+            s += " " + kwcase(r, "OFFSET") + " " + span()
+    else:
+        s = kwcase(r, "REFRESH AFTER") + " " + span()
+    if r.p(1, 4):
+        s += " " + kwcase(r, "RANDOMIZE FOR") + " " + span()
+    if r.p(1, 5):
+        s += " " + kwcase(r, "DEPENDS ON") + " " + r.pick(["v1", "db.v1", "v1, db.v2", "`my view`"])
+    if r.p(1, 6):
+        s += " " + kwcase(r, "SETTINGS") + " " + r.pick(["refresh_retries = 2", "refresh_retries = 2, refresh_retry_initial_backoff_ms = 100"])
+    if r.p(1, 5):
+        s += " " + kwcase(r, "APPEND")
+    return s
+
+
+def gap_ttl_group_by(r):
+    """TTL e GROUP BY k[, ...] SET col = agg(col)[, ...] with assignments whose right-hand sides hold operators (AND ...)"""
+    keys = r.pick(["a", "a, b", "(a, b)", "toDate(ts)", "a, toStartOfDay(ts)", "k1, k2, k3"])
+    asg = lambda: r.pick(["b = max(b)", "c = sum(c)", "d = any(d)", "v = argMax(v, ts)", "x = max(x) AND 1", "f = sum(f) AND g = max(g)", "cnt = count() + 1", "m = sumMap(m)",
+                          "q = quantile(0.5)(q)", "s = groupArray(s)[1]", "n = min(n) OR 0", "`a b` = anyLast(`a b`)", "u = uniqExact(u) > 0 AND max(u) < 10", "w = if(max(w) > 0, 1, 0)",
+                          "ts = min(ts)", "j = max(j)::UInt8", "t.x = max(t.x)"])
+    e = r.pick(["ts", "d", "toDate(ts)"]) + " + " + r.pick(["INTERVAL " + str(1 + r.below(9)) + " " + r.pick(["DAY", "MONTH", "YEAR"]), "toIntervalMonth(1)"])
+    s = e + r.pick(["", "", " WHERE " + r.pick(["a = 1", "b > 0 AND c", "a IN (1, 2)"])]) + " " + kwcase(r, "GROUP BY") + " " + keys
+    if r.p(5, 6):
+        s += " " + kwcase(r, "SET") + " " + ", ".join(asg() for _ in range(1 + r.below(3)))
+    return s
+
+
+def gap_create(r):
+    cols = lambda: columns_def(r)
+    mt = lambda: "ENGINE = MergeTree ORDER BY " + r.pick(ORDER_KEYS)
+    sel = lambda: select_core(r, 2, simple=True)
+    x = r.below(16)
+    if x < 4:
+        # refreshable views
+        ref = gap_refresh(r)
+        name = r.pick(["mv", "db.mv", "IF NOT EXISTS mv", "mv ON CLUSTER c"])
+        return "CREATE MATERIALIZED VIEW " + name + " " + ref + " " + r.pick([
+            lambda: "TO " + r.pick(["dst", "db.dst"]) + r.pick(["", " (a UInt8, b String)"]) + r.pick(["", " EMPTY"]),
+            lambda: "(a UInt8) " + mt() + r.pick(["", " EMPTY"]),
+            lambda: mt() + r.pick(["", " EMPTY", " POPULATE"]),
+            lambda: "ENGINE = Memory" + r.pick(["", " EMPTY"]),
+            lambda: "TO dst EMPTY DEFINER = u SQL SECURITY DEFINER",
+            lambda: "ENGINE = Memory COMMENT 'c'"])() + " AS " + r.pick([sel, lambda: gap_from_first_core(r), lambda: "SELECT " + gap_alias_item(r)])()
+    if x < 6:
+        ttl = ", ".join(r.pick([lambda: gap_ttl_group_by(r), lambda: ttl_list(r)])() for _ in range(1 + r.below(2)))
+        if "GROUP BY" not in ttl.upper():
+            ttl = gap_ttl_group_by(r) + ", " + ttl
+        return "CREATE TABLE " + r.pick(["t", "db.t", "IF NOT EXISTS t"]) + " " + cols() + " ENGINE = " + r.pick(["MergeTree", "ReplacingMergeTree(ver)", "SummingMergeTree"]) \
+            + " ORDER BY " + r.pick(ORDER_KEYS) + " TTL " + ttl + r.pick(["", " SETTINGS index_granularity = 8192", " COMMENT 'c'", " PRIMARY KEY a"])
+    if x == 6:
+        return "CREATE TABLE t " + cols() + " ENGINE = MergeTree " + r.pick(["PRIMARY KEY (a + b) % 10", "PRIMARY KEY (a) ORDER BY (a, b) % 2", "ORDER BY (a) DESC", "ORDER BY (a + b) * c",
+                                                                               "PARTITION BY (a) % 10 ORDER BY a", "ORDER BY a SAMPLE BY (a) % 2", "ORDER BY (a, b) SETTINGS a = 1, SETTINGS b = 2"])
+    if x == 7:
+        return "CREATE TABLE t (" + column_name(r) + " " + data_type(r, ddl=True) + " EPHEMERAL " + r.pick(["now()", "1 + 1", "toUInt8(1)", "-x", "'a' || 'b'", "CAST(1 AS UInt8)", "[1, 2][1]"]) \
+            + r.pick(["", " CODEC(ZSTD)", " COMMENT 'c'"]) + ", b UInt8) " + mt()
+    if x == 8:
+        return "CREATE TABLE " + r.pick(["t", "db.t"]) + " " + r.pick(["CLONE AS db.t2", "CLONE AS db.t2 ENGINE = MergeTree ORDER BY a", "CLONE AS `my db`.`my table`", "AS db.t2 ENGINE = Memory EMPTY"]) \
+            if r.p(1, 2) else "CREATE TABLE t " + r.pick(["ENGINE = Memory EMPTY AS " + sel(), "(a UInt8) ENGINE = Memory EMPTY AS " + sel(), mt() + " EMPTY AS " + sel(),
+                                                          "ENGINE = Memory AS " + gap_from_first_core(r), "ENGINE = Memory AS SELECT " + gap_alias_item(r)])
+    if x == 9:
+        return "CREATE DICTIONARY " + r.pick(["d", "db.d", "d ON CLUSTER c", "IF NOT EXISTS d ON CLUSTER c"]) + " (id UInt64, v String DEFAULT '') PRIMARY KEY id SOURCE(" \
+            + r.pick(["HTTP(URL 'http://h/x' FORMAT 'TSV' HEADERS(HEADER(NAME 'a' VALUE 'b')))", "HTTP(URL 'u' FORMAT 'CSV' CREDENTIALS(USER 'u' PASSWORD 'p') HEADERS(HEADER(NAME 'k' VALUE 'v') HEADER(NAME 'k2')))",
+                      "CLICKHOUSE(TABLE 't' REPLICA(HOST 'h1' PRIORITY 1) REPLICA(HOST 'h2' PRIORITY 2))", "CLICKHOUSE(TABLE 't' QUERY 'SELECT 1' HEADERS())", "MYSQL(REPLICA(HOST 'h' PRIORITY 1) PORT 3306 TABLE 't')",
+                      "CLICKHOUSE(TABLE 't')"]) + ") LAYOUT(" + r.pick(["FLAT()", "HASHED()", "COMPLEX_KEY_HASHED(SHARDS 4)"]) + ") LIFETIME(" + r.pick(["0", "MIN 0 MAX 10", "300"]) + ")"
+    if x == 10:
+        # FROM-first / keyword aliases inside views
+        body = r.pick([lambda: gap_from_first_core(r), lambda: "SELECT " + gap_alias_item(r), lambda: "SELECT " + gap_alias_item(r) + " FROM t", lambda: gap_select_window(r)])()
+        return r.pick(["CREATE VIEW v AS ", "CREATE OR REPLACE VIEW db.v AS ", "CREATE MATERIALIZED VIEW mv TO dst AS ", "CREATE MATERIALIZED VIEW mv ENGINE = Memory POPULATE AS ",
+                       "CREATE LIVE VIEW lv AS ", "CREATE WINDOW VIEW wv TO dst AS ", "CREATE VIEW v (a UInt8) AS ", "CREATE TABLE t ENGINE = Memory AS "]) + body
+    if x == 11:
+        # column names / options that are keyword tokens
+        return "CREATE TABLE t (" + ", ".join(r.pick(["index", "primary", "constraint", "projection", "top", "first", "last", "user", "comment", "values", "format", "partition", "engine", "settings"])
+                                              + " " + r.pick(SIMPLE_TYPES) for _ in range(1 + r.below(3))) + ") " + mt()
+    if x == 12:
+        return "CREATE " + r.pick(["INDEX i ON t (a) TYPE minmax", "INDEX IF NOT EXISTS i ON db.t (a + 1) TYPE set(10) GRANULARITY 2", "UNIQUE INDEX i ON t (a)", "INDEX i ON t a TYPE minmax",
+                                   "INDEX i ON t ((a, b)) TYPE bloom_filter", "INDEX i ON t (a DESC, b ASC) TYPE minmax", "INDEX i ON t (a)"])
+    if x == 13:
+        return "CREATE TABLE t " + cols() + " " + r.pick(["ENGINE = MergeTree ORDER BY a TTL d + INTERVAL 1 DAY TO DISK 'x' IF EXISTS", "ENGINE = MergeTree ORDER BY a TTL d RECOMPRESS CODEC(ZSTD) WHERE a",
+                                                       "ENGINE = MergeTree ORDER BY a TTL d TO VOLUME 'v' IF EXISTS, " + gap_ttl_group_by(r),
+                                                       "ENGINE = MergeTree ORDER BY a TTL d SETTINGS a = 1", "ENGINE = MergeTree() PARTITION BY a ORDER BY a TTL d + INTERVAL 1 DAY, d + INTERVAL 2 DAY DELETE"])
+    if x == 14:
+        return "CREATE " + r.pick(["TEMPORARY TABLE t (a UInt8) ENGINE = Memory", "OR REPLACE TEMPORARY TABLE t (a UInt8)", "TABLE t (a UInt8) ENGINE = Memory AS t2", "TABLE t AS t2 (a UInt8)",
+                                   "TABLE t (a UInt8, b ALIAS a + 1, INDEX i a TYPE minmax, PROJECTION p (SELECT a ORDER BY a), CONSTRAINT c CHECK a > 0) ENGINE = Memory COMMENT 'x' SETTINGS a = 1",
+                                   "TABLE t (a UInt8 NOT NULL DEFAULT 1 CODEC(ZSTD) TTL d + INTERVAL 1 DAY COMMENT 'c' PRIMARY KEY) ENGINE = MergeTree",
+                                   "TABLE t (a UInt8 COMMENT 'c' DEFAULT 1) ENGINE = Memory", "TABLE t (a Nullable(UInt8) NULL, b UInt8 NOT NULL) ENGINE = Memory",
+                                   "TABLE t (`a` UInt8) ENGINE = Memory AS SELECT 1 a first", "DATABASE d ENGINE = Replicated('/p', 's', 'r') SETTINGS a = 1 COMMENT 'c'",
+                                   "DATABASE d ON CLUSTER c ENGINE = Atomic COMMENT 'c'", "DATABASE IF NOT EXISTS d COMMENT 'c' ENGINE = Atomic"])
+    return "CREATE " + r.pick(["USER u IDENTIFIED WITH ssh_key BY KEY 'k' TYPE 'ssh-rsa', KEY 'k2' TYPE 'ssh-ed25519'", "USER u IDENTIFIED WITH http SERVER 's' SCHEME 'basic'",
+                               "USER u VALID UNTIL '2030-01-01'", "USER u IDENTIFIED BY 'p' VALID UNTIL 'infinity' HOST LOCAL DEFAULT ROLE r1, r2 SETTINGS a = 1 READONLY, PROFILE 'p'",
+                               "USER u IN access_storage", "USER u ON CLUSTER c IDENTIFIED WITH bcrypt_password BY 'p', sha256_password BY 'q'", "USER u GRANTEES ANY EXCEPT u2",
+                               "USER u DEFAULT DATABASE db", "ROLE r SETTINGS max_memory_usage = 1 MIN 0 MAX 10 CONST", "ROW POLICY p ON t AS RESTRICTIVE FOR SELECT USING a = 1 TO ALL EXCEPT u",
+                               "ROW POLICY p ON db.*, t2 USING 1 TO r", "QUOTA q KEYED BY ip_address FOR RANDOMIZED INTERVAL 1 HOUR MAX queries = 10, errors = 1 TO ALL",
+                               "QUOTA q FOR INTERVAL 1 DAY NO LIMITS, FOR INTERVAL 1 HOUR TRACKING ONLY TO u", "SETTINGS PROFILE p SETTINGS a = 1 WRITABLE, INHERIT 'q' TO u",
+                               "FUNCTION f AS (x, y) -> x + y", "FUNCTION f ON CLUSTER c AS x -> x first", "FUNCTION f AS () -> (SELECT 1 top)"])
+
+
+def gap_alter(r):
+    t = "ALTER TABLE " + r.pick(["t", "db.t", "t ON CLUSTER c", "`my table`"]) + " "
+    x = r.below(14)
+    if x < 3:
+        s = t + kwcase(r, "MODIFY TTL") + " " + ", ".join(r.pick([lambda: gap_ttl_group_by(r), lambda: gap_ttl_group_by(r), lambda: ttl_list(r)])() for _ in range(1 + r.below(2)))
+        if "GROUP BY" not in s.upper():
+            s = t + "MODIFY TTL " + gap_ttl_group_by(r)
+        return s + r.pick(["", "", ", MODIFY COLUMN c UInt8", ", MATERIALIZE TTL", ", MODIFY SETTING a = 1", " SETTINGS mutations_sync = 2"])
+    if x < 5:
+        return r.pick(["ALTER TABLE mv ", "ALTER TABLE db.mv ", "ALTER TABLE mv ON CLUSTER c "]) + kwcase(r, "MODIFY") + " " + gap_refresh(r) + r.pick(["", "", " SETTINGS a = 1"])
+    return t + r.pick([
+        lambda: "MODIFY COLUMN " + col(r) + " TTL " + r.pick(["d + INTERVAL 1 DAY", "ts + toIntervalMonth(1)"]),
+        lambda: "MODIFY COLUMN " + col(r) + r.pick([" COMMENT 'c'", " CODEC(ZSTD)", " DEFAULT 1", " REMOVE TTL, MODIFY COLUMN b REMOVE COMMENT", " MODIFY SETTING max_compress_block_size = 1", " RESET SETTING max_compress_block_size"]),
+        lambda: "CLEAR COLUMN IF EXISTS " + col(r) + r.pick(["", " IN PARTITION 1", " IN PARTITION ID 'x'"]),
+        lambda: "DROP DETACHED PARTITION " + r.pick(["ID 'x'", "ID 'all'", "ALL"]) + r.pick(["", " SETTINGS allow_drop_detached = 1"]),
+        lambda: "DROP DETACHED PART 'all_1_1_0'" + r.pick(["", " SETTINGS allow_drop_detached = 1"]),
+        lambda: "ADD COLUMN " + r.pick(["", "IF NOT EXISTS "]) + column_decl(r) + " FIRST" + r.pick(["", ", ADD COLUMN z UInt8 AFTER " + col(r)]),
+        lambda: "ADD INDEX IF NOT EXISTS " + index_def(r)[6:] + r.pick(["", " FIRST", " AFTER i"]),
+        lambda: "ADD PROJECTION IF NOT EXISTS " + projection_def(r)[11:] + r.pick(["", " FIRST", " AFTER p"]),
+        lambda: "ADD CONSTRAINT IF NOT EXISTS c CHECK " + expr(r, 3, False),
+        lambda: r.pick(["REPLACE", "ATTACH", "MOVE"]) + " PARTITION " + partition_expr(r) + r.pick([" FROM db.t2", " FROM `my db`.t2", " TO TABLE db.t2", " FROM t2"]),
+        lambda: "FREEZE " + r.pick(["", "PARTITION " + partition_expr(r) + " "]) + "WITH NAME " + string_lit(r),
+        lambda: "UNFREEZE " + r.pick(["", "PARTITION " + partition_expr(r) + " "]) + "WITH NAME 'n'",
+        lambda: "DELETE IN PARTITION " + partition_expr(r) + " WHERE " + expr(r, 3, False),
+        lambda: "UPDATE " + col(r) + " = " + expr(r, 3, False) + ", " + col(r) + " = DEFAULT WHERE " + expr(r, 3, False),
+        lambda: "UPDATE a = 1 WHERE b first" if r.p(1, 2) else "DELETE WHERE " + expr(r, 3, False) + " SETTINGS mutations_sync = 1",
+        lambda: "MODIFY QUERY " + r.pick([lambda: gap_from_first_core(r), lambda: "SELECT " + gap_alias_item(r), lambda: gap_select_window(r)])(),
+        lambda: "MODIFY ORDER BY " + r.pick(["(a) DESC", "(a + b) * c", "(a, b) % 2"]),
+        lambda: "MODIFY SAMPLE BY (a) % 2",
+        lambda: "FETCH PARTITION " + partition_expr(r) + " FROM '/p' " + r.pick(["", "SETTINGS a = 1"]),
+        lambda: "MOVE PARTITION " + partition_expr(r) + " TO " + r.pick(["SHARD '/p'", "DISK 'd' SETTINGS a = 1", "VOLUME 'v', MOVE PART 'p' TO DISK 'd'"]),
+        lambda: "APPLY DELETED MASK" + r.pick(["", " IN PARTITION 1", " IN PARTITION ID 'x'"]),
+        lambda: "APPLY PATCHES" + r.pick(["", " IN PARTITION 1"]),
+        lambda: "REWRITE PARTS" + r.pick(["", " IN PARTITION 1"]),
+        lambda: "ADD STATISTICS IF NOT EXISTS a, b TYPE tdigest, uniq" if r.p(1, 2) else "MATERIALIZE STATISTICS ALL",
+        lambda: "MODIFY COMMENT " + string_lit(r) + ", COMMENT COLUMN a 'c'",
+        lambda: "MODIFY DEFINER = u" if r.p(1, 2) else "MODIFY SQL SECURITY INVOKER",
+        lambda: "RENAME COLUMN IF EXISTS " + col(r) + " TO " + r.pick(GAP_ALIASES),
+        lambda: "ATTACH PARTITION ALL FROM t2" if r.p(1, 2) else "DROP PARTITION ALL",
+        lambda: "EXCHANGE PARTITION " + partition_expr(r) + " WITH TABLE t2",
+        lambda: "FORGET PARTITION " + partition_expr(r),
+    ])()
+
+
+def gap_utility(r):
+    t = tbl(r)
+    sel = lambda: r.pick([lambda: gap_from_first_core(r), lambda: "SELECT " + gap_alias_item(r), lambda: gap_select_window(r), lambda: gap_select_misc(r)])()
+    return r.pick([
+        lambda: "EXPLAIN " + r.pick(["CURRENT TRANSACTION", "current transaction", "TABLE OVERRIDE mysql('h', 'd', 't', 'u', 'p') PARTITION BY a", "QUERY TREE dump_ast = 1 " + sel(),
+                                     "ESTIMATE " + sel(), "PIPELINE graph = 1, compact = 0 " + sel(), "AST graph = 1 " + sel(), "PLAN json = 1, indexes = 1 " + sel(), "SYNTAX oneline = 1 " + sel(),
+                                     "(SELECT 1)", "AST (SELECT 1) UNION ALL (SELECT 2)", sel()]),
+        lambda: "SYSTEM " + r.pick(["SYNC REPLICA " + t + r.pick([" STRICT", " LIGHTWEIGHT", " PULL", " LIGHTWEIGHT FROM 'r1', 'r2'", " ON CLUSTER c STRICT"]), "SYNC DATABASE REPLICA db",
+                                    "SYNC DATABASE REPLICA ON CLUSTER c db", "REFRESH VIEW v", "REFRESH VIEW db.v", "STOP VIEW v", "START VIEW db.v", "CANCEL VIEW v", "WAIT VIEW v",
+                                    "STOP VIEWS", "START VIEWS", "SYNC TRANSACTION LOG", "SYNC FILE CACHE", "SYNC FILESYSTEM CACHE", "DROP REPLICA 'r' FROM TABLE " + t,
+                                    "DROP REPLICA 'r' FROM DATABASE db", "DROP REPLICA 'r' FROM ZKPATH '/p'", "DROP DATABASE REPLICA 'r' FROM DATABASE db", "RESTORE REPLICA " + t + " ON CLUSTER c",
+                                    "RESTART REPLICA " + t, "RELOAD DICTIONARY db.d", "RELOAD DICTIONARY ON CLUSTER c d", "RELOAD MODEL m", "RELOAD FUNCTION f", "RELOAD FUNCTIONS", "RELOAD USERS",
+                                    "RELOAD ASYNCHRONOUS METRICS", "FLUSH LOGS query_log, part_log", "FLUSH DISTRIBUTED " + t + " SETTINGS a = 1", "FLUSH ASYNC INSERT QUEUE", "STOP MERGES ON VOLUME v",
+                                    "STOP MERGES " + t, "STOP TTL MERGES", "STOP MOVES " + t, "STOP FETCHES", "STOP REPLICATED SENDS " + t, "STOP REPLICATION QUEUES", "STOP PULLING REPLICATION LOG " + t,
+                                    "STOP CLEANUP " + t, "STOP DISTRIBUTED SENDS " + t, "STOP LISTEN TCP", "START LISTEN QUERIES ALL", "STOP LISTEN CUSTOM 'p'", "UNFREEZE WITH NAME 'b'",
+                                    "WAIT LOADING PARTS " + t, "ENABLE FAILPOINT fp", "DISABLE FAILPOINT fp", "WAIT FAILPOINT fp", "JEMALLOC PURGE", "JEMALLOC ENABLE PROFILE", "DROP QUERY CACHE TAG 't'",
+                                    "DROP FORMAT SCHEMA CACHE FOR Protobuf", "DROP S3 CLIENT CACHE", "DROP SCHEMA CACHE FOR S3", "DROP FILESYSTEM CACHE 'c' KEY k OFFSET 1", "DROP DISTRIBUTED CACHE CONNECTIONS",
+                                    "DROP PAGE CACHE", "DROP CONNECTIONS CACHE", "PREWARM MARK CACHE " + t, "PREWARM PRIMARY INDEX CACHE " + t, "LOAD PRIMARY KEY " + t, "UNLOAD PRIMARY KEY",
+                                    "REPLICA READY", "REPLICA UNREADY", "STOP REDUCE BLOCKING PARTS " + t, "NOTIFY FAILPOINT fp"]),
+        lambda: "SHOW " + r.pick(["SETTING max_threads", "CURRENT ROLES", "ENABLED ROLES", "ROW POLICIES", "ROW POLICIES ON " + t, "POLICIES ON db.*", "TABLES IN db", "FULL TABLES IN db LIKE 'a%' LIMIT 1",
+                                  "TEMPORARY TABLES", "TABLES FROM db NOT ILIKE '%a%'", "TABLES WHERE name = 'a'", "CHANGED SETTINGS ILIKE 'max%'", "SETTINGS PROFILES", "PROFILES", "CURRENT QUOTA",
+                                  "CREATE USER u", "CREATE USER u1, u2", "CREATE ROLE r", "CREATE ROW POLICY p ON " + t, "CREATE POLICY p ON db.*", "CREATE QUOTA q", "CREATE QUOTA CURRENT",
+                                  "CREATE SETTINGS PROFILE p", "CREATE PROFILE p1, p2", "CREATE USERS", "GRANTS FOR u1, u2", "GRANTS FOR CURRENT_USER WITH IMPLICIT FINAL", "GRANTS ON db.t",
+                                  "EXTENDED FULL COLUMNS FROM t FROM db LIKE 'a' LIMIT 1", "FIELDS IN t", "INDEXES FROM t IN db", "KEYS FROM " + t + " WHERE 1", "INDEX FROM " + t, "DATABASES NOT LIKE 'a' LIMIT 2",
+                                  "DICTIONARIES FROM db LIKE 'a'", "CLUSTER c", "CLUSTER 'c'", "CLUSTERS NOT LIKE 'a' LIMIT 1", "MERGES ILIKE 'a' LIMIT 1", "ENGINES INTO OUTFILE 'f'", "FUNCTIONS ILIKE 'a%'",
+                                  "FILESYSTEM CACHES", "AUTHORS", "CREATE TEMPORARY TABLE t", "CREATE " + t + " INTO OUTFILE 'f'", "TABLE " + t, "DATABASE db", "CREATE TABLE " + t + " FORMAT TSVRaw SETTINGS a = 1",
+                                  "ACCESS", "PRIVILEGES", "TYPE 'a'", "OBJECT 'x' TYPE y"]),
+        lambda: "DETACH " + r.pick(["TABLE " + t + " PERMANENTLY", "TABLE " + t + " ON CLUSTER c PERMANENTLY SYNC", "VIEW v PERMANENTLY", "DICTIONARY d PERMANENTLY", "DATABASE db PERMANENTLY", "TABLE t1, t2"]),
+        lambda: "OPTIMIZE TABLE " + t + r.pick([" DEDUPLICATE BY a", " FINAL DEDUPLICATE BY a, b", " DEDUPLICATE BY * EXCEPT (a)", " DEDUPLICATE BY COLUMNS('a')", " PARTITION 1 FINAL DEDUPLICATE BY * EXCEPT a",
+                                                " FINAL CLEANUP", " DEDUPLICATE BY a SETTINGS a = 1", " FORCE", " DRY RUN PARTS 'a', 'b'"]),
+        lambda: "BACKUP " + r.pick(["TABLE t AS t2", "TABLE db.t AS db2.t2 PARTITIONS 1, 2", "DATABASE db AS db2", "ALL EXCEPT TABLES t, db.t2", "ALL EXCEPT DATABASES a, b", "TEMPORARY TABLE t", "TABLE t, DICTIONARY d",
+                                    "DATABASE db EXCEPT TABLES a, b", "VIEW v"]) + " TO " + r.pick(["Disk('d', 'f')", "File('f')", "S3('u', 'k', 's')", "Null"]) + r.pick(["", " SETTINGS async = 1, base_backup = Disk('d', 'b')", " ASYNC"]),
+        lambda: "RESTORE " + r.pick(["TABLE t AS t2", "ALL", "DATABASE db AS db2", "TABLE db.t PARTITION 1", "ALL EXCEPT TABLE t"]) + " FROM " + r.pick(["Disk('d', 'f')", "File('f')"]) + r.pick(["", " SETTINGS allow_non_empty_tables = 1", " SYNC"]),
+        lambda: "TRUNCATE " + r.pick(["ALL TABLES FROM db", "ALL TABLES FROM IF EXISTS db", "ALL TABLES FROM db LIKE 'a%'", "TABLES FROM db NOT LIKE 'a'", "DATABASE db", "TEMPORARY TABLE t", "TABLE t1, t2", "t SYNC", "TABLE " + t + " SETTINGS a = 1"]),
+        lambda: "CHECK " + r.pick(["TABLE " + t + " PARTITION ID 'x'", "TABLE " + t + " PART 'p'", "ALL TABLES", "TABLE " + t + " PARTITION 1 FORMAT JSON SETTINGS check_query_single_value_result = 0", "GRANT SELECT ON t", "GRANT SELECT(a, b) ON db.*"]),
+        lambda: "SET " + r.pick(["ROLE r", "ROLE DEFAULT", "ROLE NONE", "ROLE ALL EXCEPT r", "ROLE r1, r2", "DEFAULT ROLE r TO u", "DEFAULT ROLE ALL EXCEPT r1 TO u1, u2", "DEFAULT ROLE NONE TO CURRENT_USER", "TRANSACTION SNAPSHOT 1",
+                                 "param_x = 1", "param_s = 'a''b'", "a = 1, b = 'x', c = [1, 2]", "a = (1, 2), b = {'k': 1}", "a = DEFAULT", "a = -1.5e3", "SQL_SELECT_LIMIT = 1", "NAMES 'utf8'", "a = true, b = NULL", "x.y = 1"]),
+        lambda: r.pick([
+            "USE DATABASE db", "USE `my db`", "DESCRIBE (FROM t SELECT a)", "DESC TABLE t SETTINGS describe_compact_output = 1", "DESCRIBE TABLE (SELECT 1 first)", "DESCRIBE numbers(3) FORMAT Null",
+            "EXISTS DATABASE db", "EXISTS VIEW v", "EXISTS DICTIONARY db.d", "EXISTS TEMPORARY TABLE t", "EXISTS t", "DROP TABLE t1, t2", "DROP TABLE IF EXISTS t1, db.t2 SYNC", "DROP TABLE IF EMPTY t",
+            "DROP TEMPORARY TABLE t", "DROP VIEW v SYNC", "DROP DICTIONARY IF EXISTS db.d", "DROP DATABASE db NO DELAY", "DROP FUNCTION IF EXISTS f ON CLUSTER c", "DROP INDEX i ON t", "DROP NAMED COLLECTION IF EXISTS n ON CLUSTER c",
+            "DROP USER IF EXISTS u1, u2 FROM s", "DROP ROLE r ON CLUSTER c", "DROP ROW POLICY p ON t, p2 ON t2", "DROP POLICY IF EXISTS p ON db.*", "DROP QUOTA q", "DROP SETTINGS PROFILE p", "DROP PROFILE p", "DROP RESOURCE r", "DROP WORKLOAD w",
+            "RENAME TABLE a TO b, c TO d ON CLUSTER c", "RENAME DATABASE a TO b", "RENAME DICTIONARY a TO b", "RENAME a TO b", "RENAME TABLE IF EXISTS a TO b", "EXCHANGE TABLES a AND b, c AND d", "WATCH v", "WATCH db.v EVENTS LIMIT 1 FORMAT Null",
+            "UNDROP TABLE t UUID '00000000-0000-0000-0000-000000000001' ON CLUSTER c", "MOVE USER u TO s", "MOVE ROLE r1, r2 TO s", "EXECUTE AS u", "EXECUTE AS u SELECT 1", "PARALLEL WITH SELECT 1", "SELECT 1 PARALLEL WITH SELECT 2 first"]),
+        lambda: "KILL " + r.pick(["QUERY WHERE query_id = 'x' SYNC FORMAT Null", "MUTATION WHERE database = 'db' AND table = 't' TEST", "QUERY ON CLUSTER c WHERE user = 'u' ASYNC", "TRANSACTION WHERE tid = (1, 1, '0')", "PART_MOVE_TO_SHARD WHERE 1"]),
+        lambda: r.pick([
+            "GRANT SELECT ON *.* TO u WITH REPLACE OPTION", "GRANT CURRENT GRANTS ON *.* TO u", "GRANT CURRENT GRANTS(SELECT ON db.*) TO u", "GRANT SELECT ON db.prefix* TO u", "GRANT SELECT(a, b), INSERT ON t TO u1, u2 WITH GRANT OPTION",
+            "GRANT ON CLUSTER c r1, r2 TO u WITH ADMIN OPTION", "GRANT ALL ON *.* TO CURRENT_USER", "GRANT NAMED COLLECTION ON n TO u", "GRANT CREATE TEMPORARY TABLE, S3 ON *.* TO u", "GRANT SET DEFINER ON u2 TO u", "GRANT TABLE ENGINE ON MergeTree TO u",
+            "GRANT SHOW NAMED COLLECTIONS SECRETS ON * TO u", "GRANT dictGet ON db.d TO u", "GRANT SELECT ON TABLE t TO u", "GRANT ALTER UPDATE(a), ALTER DELETE ON db.t TO r",
+            "REVOKE ALL PRIVILEGES ON *.* FROM u", "REVOKE GRANT OPTION FOR SELECT ON t FROM u", "REVOKE ADMIN OPTION FOR r FROM u", "REVOKE SELECT ON *.* FROM ALL EXCEPT u", "REVOKE ON CLUSTER c SELECT(a) ON t FROM u1, u2", "REVOKE r1, r2 FROM u"]),
+        lambda: r.pick(["BEGIN TRANSACTION", "COMMIT", "ROLLBACK", "BEGIN", "START TRANSACTION", "COMMIT AND CHAIN", "ROLLBACK TO SAVEPOINT s", "SET TRANSACTION SNAPSHOT 3"]),
+        lambda: r.pick(["ATTACH TABLE t FROM '/p' (a UInt8) ENGINE = MergeTree ORDER BY a", "ATTACH TABLE t UUID '00000000-0000-0000-0000-000000000001' (a UInt8) ENGINE = Memory", "ATTACH TABLE t AS REPLICATED", "ATTACH TABLE t AS NOT REPLICATED",
+                        "ATTACH DATABASE db ENGINE = Atomic", "ATTACH DICTIONARY IF NOT EXISTS d ON CLUSTER c", "ATTACH VIEW v AS SELECT 1 first", "ATTACH TABLE IF NOT EXISTS db.t ON CLUSTER c"]),
+        lambda: "(" + sel() + ")" + r.pick(["", " FORMAT Null", " SETTINGS a = 1"]),
+    ])()
+
+
+GAP_GENERATORS = {"select": gap_select, "setop": gap_setop, "insert": gap_insert, "create": gap_create, "alter": gap_alter, "utility": gap_utility}
+GAP_TAG = 0x67617073          # key of the generator that decides on, and builds, the --gaps statements
+
+
+# ------------------------------------------------------------------------------------------
 # main
 
 def main():
     args = sys.argv[1:]
     kinds = None
     as_hex = False
+    gaps = False
     start = 0
     pos = []
     i = 0
@@ -2877,6 +3417,8 @@ def main():
         a = args[i]
         if a == "--hex":
             as_hex = True
+        elif a == "--gaps":
+            gaps = True
         elif a == "--kinds":
             i += 1
             kinds = args[i].split(",")
@@ -2899,15 +3441,20 @@ def main():
             sys.stderr.write("gen_sql_grammar: unknown kind %r (known: %s)\n" % (k, ",".join(GENERATORS)))
             sys.exit(2)
     out = sys.stdout
+    MODE["hex"] = as_hex
     for idx in range(start, start + count):
         k = kinds[idx % len(kinds)]
         r = Rng(seed, idx)
         s = GENERATORS[k](r)
+        if gaps:
+            rg = Rng(seed, idx, GAP_TAG)
+            if rg.below(6) == 0:
+                s = GAP_GENERATORS[k](rg)
         s = " ".join(s.split())
         if r.p(1, 25):
             s = decorate(r, s)
-        if RAW_TAB in s or RAW_CR in s:
-            s = s.replace(RAW_TAB, "\t").replace(RAW_CR, "\r")
+        if RAW_TAB in s or RAW_CR in s or RAW_LF in s:
+            s = s.replace(RAW_TAB, "\t").replace(RAW_CR, "\r").replace(RAW_LF, "\n")
         out.write((s.encode("utf-8").hex() if as_hex else s) + "\n")
 
 
